@@ -248,7 +248,7 @@ def run(ck: Check) -> int:
                                     got = call()
                                 except Exception as ex:  # noqa: BLE001
                                     got = f'{type(ex).__name__}: {ex}'
-                                rel = os.path.relpath(sp, tmp) + ('/' if sp.endswith('/') else '')
+                                rel = sp[len(tmp) + 1:]
                                 if got != want:
                                     bad.append(Failing(f'results differ between the working directory and {how} spelled {rel!r}',
                                                        {'pattern': p, 'flags': fl, 'root': how, 'spelling': rel,
